@@ -31,7 +31,9 @@ let line l =
     let sp2 = Stdlib.String.index rest ' ' in
     let p = Stdlib.String.sub rest 0 sp2 in
     let sx = Stdlib.String.sub rest (sp2 + 1) (Stdlib.String.length rest - sp2 - 1) in
-    if Justify.vjust_cfg (z_of_hex p) (r_cfg (parse_sexp sx)) then "(justified)" else "(unjustified)"
+    let c = r_cfg (parse_sexp sx) in
+    if not (Justify.ldefs_unique_cfg c) then "(local-defs-not-unique)"
+    else if Justify.vjust_cfg (z_of_hex p) c then "(justified)" else "(unjustified)"
   | "ssacheck" ->
     (* ssacheck (cfg ...) (idom ...) *)
     let rest = Stdlib.String.sub l (sp1 + 1) (Stdlib.String.length l - sp1 - 1) in
